@@ -524,7 +524,7 @@ def main(argv):
             "native_checks": native_report,
             "empty_domain_cases": vacuous,
         },
-        "assumptions": ASSUMPTIONS,
+        "assumptions": ASSUMPTIONS + _assumed_contracts(prop) + PROP_ASSUMPTIONS.get(prop, []),
         "wall_s": round(wall, 2),
         "violations": len(violations),
     }
@@ -596,7 +596,22 @@ def do_replay(prop, path):
     return 0
 
 
-from .meta import ASSUMPTIONS, EXPLAIN, LEVELS, TRUSTED  # noqa: E402
+from .meta import ASSUMPTIONS, EXPLAIN, LEVELS, PROP_ASSUMPTIONS, TRUSTED  # noqa: E402
+
+
+def _assumed_contracts(prop):
+    """Every callee a harness of this property replaces by a contract (stubs / subst): an assumption,
+    named so that it can be audited."""
+    from .harness import REGISTRY
+    out = set()
+    for h in REGISTRY:
+        if not (h.prop == prop or (isinstance(h.prop, tuple) and prop in h.prop)):
+            continue
+        for real, spec in list((h.stubs or {}).items()) + list((h.subst or {}).items()):
+            rn = f"{getattr(real, '__module__', '?')}.{getattr(real, '__qualname__', getattr(real, '__name__', repr(real)))}"
+            doc = ((getattr(spec, "__doc__", None) or "").strip().split("\n")[0])[:140]
+            out.add(f"assumed contract (in {h.name}): {rn} replaced by {getattr(spec, '__name__', repr(spec))}" + (f" -- {doc}" if doc else ""))
+    return sorted(out)
 
 if __name__ == "__main__":
     sys.exit(main(sys.argv))
